@@ -1,5 +1,7 @@
 import NopModel.Lemmas.StopsDec
-/-! C10 — I/O errors propagate verbatim and stop the operation (read side). -/
+import NopModel.Lemmas.EncWEmits
+import NopModel.Lemmas.Size
+/-! C10 — I/O errors propagate verbatim and stop the operation (read side, then write side). -/
 namespace Nop
 
 /-- **Read faults.** Arm the underlying reader to fail its `k`-th call (counted over the calls
@@ -38,5 +40,62 @@ script consumed, nothing after it -/
 example : decInto (.int .u16 .plain) (.int 0)
     ({ bytes := [0x81, 0x34, 0x12], fault := .armed 1 .ioError } : Src) =
     (.error .ioError, { bytes := [0x34, 0x12], fault := .dead .ioError }) := by rfl
+
+/-! ### write side: the call-level writer `serialize` / `encW` (EncW.lean) -/
+
+/-- **Write faults.** Arm the underlying writer to fail its `k`-th call (counted over the calls
+that actually reach it: `Prepare`, `Write(byte)`, `Write(begin, end)`, `Skip`, `PushHandle`,
+including those forwarded by the `BoundedWriter`s of table entries) with error `e`.  Whatever
+the type, the value (well-typed or not), the writer's capacity, budgets and handle channel,
+`Serializer::Write` ends in one of two ways: the failing call was never reached (the script is
+still armed), or it was reached, *no further call was issued* (`dead`, not `zombie`) and
+`Write` returned exactly `e`.  Success is never reported after a failed call. -/
+theorem C10_write_stops (t : Ty) (v : Val) (s : Snk) (k : Nat) (e : Err)
+    (hs : s.fault = .armed k e) (r : Except Err Unit) (s' : Snk) (h : serialize t v s = (r, s')) :
+    (s'.fault = .none ∨ ∃ j, s'.fault = .armed j e) ∨ (s'.fault = .dead e ∧ r = .error e) :=
+  stopsW_serialize t v e s r s' (Or.inr ⟨k, hs⟩) h
+
+/-- the same for a bare `Encoding<T>::Write` (no `Prepare`), e.g. an element inside a container -/
+theorem C10_write_stops_element (t : Ty) (v : Val) (s : Snk) (k : Nat) (e : Err)
+    (hs : s.fault = .armed k e) (r : Except Err Unit) (s' : Snk) (h : encW t v s = (r, s')) :
+    (s'.fault = .none ∨ ∃ j, s'.fault = .armed j e) ∨ (s'.fault = .dead e ∧ r = .error e) :=
+  stopsW_encW t v e s r s' (Or.inr ⟨k, hs⟩) h
+
+/-- **The call-level writer is the pure encoder.** Whenever `encode` (the function every other
+theorem is stated on) yields `bs`, `Serializer::Write` on any healthy writer with room and
+budgets for `Size(value)` bytes succeeds, the calls it issued appended exactly `bs`, every
+enclosing budget was charged `bs.length`, and the handle channel is the pure encoder's. -/
+theorem C10_write_refines (t : Ty) (v : Val) (h : HChan) (bs : Bytes) (h' : HChan)
+    (he : encode t v h = .ok (bs, h')) (s : Snk) (hc : s.chan = h) (hfit : s.fits (size t v)) :
+    serialize t v s = (.ok (), { s.acc bs with chan := h' }) := by
+  have hle : bs.length ≤ size t v := encode_length_le t v h bs h' he
+  unfold serialize
+  rw [bindW_run]
+  have hp : wPrepare (size t v) s = (.ok (), s) := by
+    unfold wPrepare
+    simp only [hfit.2.2, Bool.not_true, Bool.false_eq_true, ↓reduceIte, preW_clean hfit.1, hfit.2.1]
+  rw [hp]
+  exact encW_emits t v h bs h' he s hc ⟨hfit.1, room_mono hle hfit.2.1, framesOk_mono hle hfit.2.2⟩
+
+/-- a writer without room for `Size(value)` refuses in `Prepare`: nothing is written -/
+theorem C10_write_no_room (t : Ty) (v : Val) (s : Snk) (hc : s.fault = .none) (hr : s.room (size t v) = false) :
+    serialize t v s = (.error .writeLimitReached, s) := by
+  unfold serialize
+  rw [bindW_run]
+  unfold wPrepare
+  by_cases hf : framesOk (size t v) s.frames = true
+  · simp only [hf, Bool.not_true, Bool.false_eq_true, ↓reduceIte, preW_clean hc, hr]
+  · simp only [hf, Bool.not_false, ↓reduceIte]
+
+/-- non-vacuity: a table entry holding a string; failing the 9th call (the string's payload
+block, inside the entry's BoundedWriter) returns that error, nothing after it; the bytes before
+it were accepted -/
+example : serialize (.table 5 [(1, false)] [.str 0 1]) (.list [.tag 1 (.list [.int 104, .int 105])])
+    ({ fault := .armed 8 .ioError } : Snk) =
+    (.error .ioError, { out := [0xb5, 5, 1, 1, 4, 0xbd, 2], frames := [2], fault := .dead .ioError }) := by rfl
+
+/-- ... and without a fault the calls add up to the pure encoder's bytes -/
+example : serialize (.table 5 [(1, false)] [.str 0 1]) (.list [.tag 1 (.list [.int 104, .int 105])]) ({} : Snk) =
+    (.ok (), { out := [0xb5, 5, 1, 1, 4, 0xbd, 2, 104, 105] }) := by rfl
 
 end Nop
